@@ -53,7 +53,7 @@ class CppExternalType(BaseModel):
 def deprecated(decl: BaseCommentModel, prefix: str = "", postfix: str = ""):
     message = ""
     if isinstance(decl.deprecated, str):
-        message = '("' + decl.deprecated.replace('\n', r'\n').replace('"', r'\"') + '")'
+        message = '("' + decl.deprecated.replace('\\', r'\\').replace('\n', r'\n').replace('"', r'\"') + '")'
     return f"{prefix}[[deprecated{message}]]{postfix}" if decl.deprecated else ""
 
 
